@@ -1,0 +1,31 @@
+//go:build verif
+
+package pattern
+
+import "strings"
+
+// VerifPathFields are the fields of a PathComponentPagePattern its IsPagingURL reads.
+type VerifPathFields struct {
+	StrURL                  string
+	PlaceholderStart        int
+	PlaceholderSegmentStart int
+	Prefix                  string
+	Suffix                  string
+	URLOrigin               int // strings.Index(strURL, url.Path), as isPagingUrlForStartOfPathComponent computes it
+}
+
+// VerifPathPatternFields returns the fields when p is a path-component pattern.
+func VerifPathPatternFields(p PagePattern) (VerifPathFields, bool) {
+	pp, ok := p.(*PathComponentPagePattern)
+	if !ok {
+		return VerifPathFields{}, false
+	}
+	return VerifPathFields{
+		StrURL:                  pp.strURL,
+		PlaceholderStart:        pp.placeholderStart,
+		PlaceholderSegmentStart: pp.placeholderSegmentStart,
+		Prefix:                  pp.prefix,
+		Suffix:                  pp.suffix,
+		URLOrigin:               strings.Index(pp.strURL, pp.url.Path),
+	}, true
+}
